@@ -922,6 +922,23 @@ func desugar(text string, fn *ssa.Function, pkg *types.Package) (string, error) 
 			i += 4
 			continue
 		}
+		if strings.HasPrefix(s[i:], "arg") && (i == 0 || !isIdentChar(s[i-1]) && s[i-1] != '.') {
+			// argN:T  ->  verif_arg[T](N)
+			j := i + 3
+			k := j
+			for k < len(s) && s[k] >= '0' && s[k] <= '9' {
+				k++
+			}
+			if k > j && k < len(s) && s[k] == ':' {
+				m := k + 1
+				for m < len(s) && (isIdentChar(s[m]) || s[m] == '.' || s[m] == '[' || s[m] == ']' || s[m] == '*') {
+					m++
+				}
+				fmt.Fprintf(&b, "verif_arg[%s](%s)", s[k+1:m], s[j:k])
+				i = m
+				continue
+			}
+		}
 		if strings.HasPrefix(s[i:], "rangeidx") && (i == 0 || !isIdentChar(s[i-1]) && s[i-1] != '.') && (i+8 == len(s) || !isIdentChar(s[i+8])) {
 			b.WriteString("verif_rangeidx()")
 			i += 8
